@@ -6,8 +6,8 @@ use crate::proj::*;
 use crate::util::*;
 use std::process::Command;
 
-const KINDS: [&str; 12] = [
-    "bad-directive", "cmd-fails", "missing-include", "include-dir", "include-invalid-utf8", "source-invalid-utf8",
+const KINDS: [&str; 14] = [
+    "bad-directive", "cmd-fails", "cmd-killed", "cmd-killed-term", "missing-include", "include-dir", "include-invalid-utf8", "source-invalid-utf8",
     "output-is-dir", "temp-missing-dir", "temp-is-dir", "tag-unused", "dev-full", "fsize-limit",
 ];
 
@@ -30,6 +30,15 @@ fn chain_project(kind: &str, pos: usize, big: bool) -> Project {
                 "cmd-fails" => {
                     s.push_str("-TXTPP#run exit 3\n");
                     cmds.push(("exit 3".to_string(), vec![Act { kind: "fail", arg: String::new() }]));
+                }
+                "cmd-killed" => {
+                    // the shell dies from a signal after producing some output: no exit code at all
+                    s.push_str("-TXTPP#run echo partial; kill -KILL $$\n");
+                    cmds.push(("echo partial; kill -KILL $$".to_string(), vec![Act { kind: "lit", arg: "partial\n".into() }, Act { kind: "fail", arg: String::new() }]));
+                }
+                "cmd-killed-term" => {
+                    s.push_str("-TXTPP#run kill -TERM $$; echo never\n");
+                    cmds.push(("kill -TERM $$; echo never".to_string(), vec![Act { kind: "fail", arg: String::new() }]));
                 }
                 "missing-include" => s.push_str("-TXTPP#include nothing-here.txt\n"),
                 "include-dir" => s.push_str("-TXTPP#include ../sub\n".replace("../sub", if i >= 1 && i <= 2 { "../sub" } else { "sub" }).as_str()),
